@@ -43,6 +43,8 @@ SCRIPTS = {
                  "next_section()\nverify()\nexplain('in section')\n"),
     'sections_open': ("from pedal import *\nfrom pedal.source.sections import separate_into_sections\n"
                       "separate_into_sections()\nnext_section()\nrun()\n"),
+    'sections_prologue': ("from pedal import *\nfrom pedal.source.sections import separate_into_sections\n"
+                          "separate_into_sections()\ngently('only the prologue was looked at')\n"),
     'crash': ("from pedal import *\nfrom pedal.core.commands import gently as g\ng.override(title='Crashed Title')\n"
               "suppress('syntax')\nraise ValueError('ics crashed')\n"),
     'group_crash': ("from pedal import *\nfrom pedal.assertions.feedbacks import assert_group\ng = assert_group('grp')\n"
@@ -96,17 +98,24 @@ for _key, _mod, _member, _args in MODULE_MEMBERS:
 # ... and one pair where the assignment really happens: the student's program changes a real module of the process
 SUBS['rt_mut'] = "import math\ndef add(a, b):\n    return a + b\nmath.tau = 'seven'\nprint(add(1, 2))\n"
 SUBS['rt_use'] = "import math\ndef add(a, b):\n    return a + b\nprint(math.tau + add(1, 2))\n"
-MODULE_SUBS = [k for k in SUBS if k[:4] in ('mut:', 'use:')] + ['rt_mut', 'rt_use']
+# ... and the built-in constructor types (list/dict/set/tuple): one submission subscripts them, one uses them bare
+SUBS['ann:list'] = "def add(a, b):\n    return a + b\ndef total(xs: list[int]) -> int:\n    return sum(xs)\nprint(total([1, 2]))\n"
+SUBS['use:list'] = ("def add(a, b):\n    return a + b\ndef shout(words: list) -> str:\n    return ' '.join(words)\n"
+                    "print(shout(['a', 'b']))\n")
+SUBS['ann:dict'] = "def add(a, b):\n    return a + b\ndef count(d: dict[str, int]) -> int:\n    return len(d)\nprint(count({'a': 1}))\n"
+SUBS['use:dict'] = "def add(a, b):\n    return a + b\ndef keys(d: dict) -> list:\n    return list(d)\nprint(keys({1: 'x'}))\n"
+MODULE_SUBS = [k for k in SUBS if k[:4] in ('mut:', 'use:', 'ann:')] + ['rt_mut', 'rt_use']
 ENVS = ['standard', 'blockpy', 'gradescope', 'terminal']
 
 REF = {}
 
 
-def grade(sname, pname, env):
+def grade(sname, pname, env, sub=None):
     from pedal.command_line.modes import Bundle
     from pedal.core.submission import Submission
     cfg = argparse.Namespace(threaded=False, resolver='resolve')
-    sub = Submission(main_file='answer.py', main_code=SUBS[pname], instructor_file='ics.py')
+    if sub is None:
+        sub = Submission(main_file='answer.py', main_code=SUBS[pname], instructor_file='ics.py')
     b = Bundle(cfg, SCRIPTS[sname], sub)
     b.environment = env
     saved = sys.stdout
@@ -141,9 +150,10 @@ def gradings(tier):
 
 
 CORE_SCRIPTS = ['assert', 'override', 'override_template', 'override_tifa', 'suppress', 'formatter', 'mock', 'sections_open',
+                'sections_prologue',
                 'crash', 'group_crash', 'sandbox_attrs', 'nothing', 'override_base', 'override_assert', 'inputs', 'mock_module',
                 'partial']
-CORE_SUBS = ['good', 'wrong', 'syntax', 'runtime', 'tifa', 'io', 'modmutate', 'moduse', 'usehelper']
+CORE_SUBS = ['good', 'wrong', 'syntax', 'runtime', 'tifa', 'io', 'modmutate', 'moduse', 'usehelper', 'sectioned']
 
 
 def compute_references(keys):
@@ -204,12 +214,23 @@ def make_body(keys, length):
         mutators = {'override', 'override_template', 'override_tifa', 'override_source', 'suppress', 'suppress_label',
                     'formatter', 'mock', 'sections', 'sections_open', 'crash', 'group_crash', 'tifa_mod', 'hide',
                     'sandbox_attrs', 'pools', 'hook', 'max_score', 'override_base', 'override_assert', 'plots', 'inputs',
-                    'mock_module', 'allow', 'seeded', 'partial'}
-        if any(h[0] in mutators or (h[1] in ('modmutate', 'plot', 'rt_mut') or h[1].startswith('mut:')) for h in hist[:-1]):
+                    'mock_module', 'allow', 'seeded', 'partial', 'sections_prologue'}
+        if any(h[0] in mutators or (h[1] in ('modmutate', 'plot', 'rt_mut') or h[1][:4] in ('mut:', 'ann:')) for h in hist[:-1]):
             ctx.mark_nontrivial(repr(hist))
+        # a submission graded twice in one history may be handed over as the same Submission object (what a
+        # pipeline that verifies and then grades does) or as a fresh one
+        from pedal.core.submission import Submission
+        repeated = len({h[1] for h in hist}) < len(hist)
+        reuse = bool(ctx.choose(2, 'same-submission-object')) if repeated else False
+        objects = {}
         for pos, k in enumerate(hist):
-            ctx.step(('grade',) + tuple(k))
-            got = grade(*k)
+            ctx.step(('grade',) + tuple(k) + (('same Submission object',) if reuse and k[1] in objects else ()))
+            sub = None
+            if reuse:
+                if k[1] not in objects:
+                    objects[k[1]] = Submission(main_file='answer.py', main_code=SUBS[k[1]], instructor_file='ics.py')
+                sub = objects[k[1]]
+            got = grade(*k, sub=sub)
             want = REF[tuple(k)]
             if got != want:
                 diff = [i for i, (x, y) in enumerate(zip(got, want)) if x != y] or ['length']
@@ -217,7 +238,7 @@ def make_body(keys, length):
                 prev = hist[pos - 1] if pos else None
                 ctx.fail({'symptom': 'grading differs from the fresh-interpreter result',
                           'after_script': prev[0] if prev else '(first)', 'after_submission_kind': prev[1] if prev else '-',
-                          'submission_kind': k[1],
+                          'submission_kind': k[1], 'same_submission_object': bool(reuse and pos and k[1] in [h[1] for h in hist[:pos]]),
                           'fields': ','.join(names[i] if isinstance(i, int) and i < len(names) else str(i) for i in diff)},
                          history=[list(h) for h in hist[:pos + 1]], got=[str(x)[:160] for x in got],
                          fresh=[str(x)[:160] for x in want])
